@@ -1,4 +1,5 @@
 """C08 - the connection graph and slot order persist across save/load."""
+import os
 import random
 import struct
 
@@ -148,6 +149,43 @@ def check_state(res, p, rng, ctx):
 
     res.count("native_roundtrips")
     load_and_compare(raw, "native", True)
+    if ctx.get("origin") == "random" and rng.random() < 0.12:
+        # through a FILE NAME, twice on the same name: an earlier state of the project was saved there and loaded before; then
+        # this state (same length when only links moved, same timestamp when both saves fall into one clock tick or a tool
+        # preserves times) - the name gives what it holds now
+        import tempfile
+        tdir = tempfile.mkdtemp(prefix="rvmon-c08-", dir=os.environ.get("TMPDIR", "/var/tmp"))
+        try:
+            path = os.path.join(tdir, "graph.sunvox")
+            p_earlier = workload.load(raw)                     # (a separate object: the state under test is not touched)
+            live_ = [m for m in p_earlier.modules if m is not None]
+            f_, t_ = rng.choice(live_), rng.choice(live_)
+            was = t_.index in [x for x in f_.out_links if x != -1]
+            p_earlier.connect(f_, t_ if not was else ~t_)      # the earlier state differs by one link
+            earlier = p_earlier.read()
+            with open(path, "wb") as fh:
+                fh.write(earlier)
+            st = os.stat(path)
+            try:
+                workload.load_path(path)
+            except Exception:
+                pass
+            now = raw
+            with open(path, "wb") as fh:
+                fh.write(now)
+            if len(now) == len(earlier):
+                os.utime(path, ns=(st.st_atime_ns, st.st_mtime_ns))
+                res.count("same_name_same_size_same_mtime_reloads")
+            res.count("same_name_reloads")
+            try:
+                q = workload.load_path(path)
+                if monitors.edge_multiset(q) != edges:
+                    res.violation("C08:edges-differ:same-file-name-rewritten", f"the file name was loaded before with another graph; after rewriting it loads {monitors.edge_multiset(q)}, the file holds {edges}", dict(case, variant="by-name"))
+            except Exception as e:
+                res.violation(f"C08:unloadable:by-name:{workload.exc_key(e)}", f"loading by file name failed: {e!r}", dict(case, variant="by-name"))
+        finally:
+            import shutil
+            shutil.rmtree(tdir, ignore_errors=True)
     if any(c[0] == b"SLnK" for c in iffparse.parse(raw)):
         res.count("native_files_with_some_slot_chunks")
     for kind, exact, counter in (("all-present", True, "variants_all_present"), ("subset-present", True, "variants_subset_present"),
@@ -249,6 +287,14 @@ def run_random(res, spec_, rng):
                 history.append("save")
                 res.count("saves_between_requests")
         res.hist("graph_shapes", shape)
+        if rng.random() < 0.3:
+            # the public flags word of a module is the user's to set (mute, solo, bypass ... or nothing at all); links do not
+            # depend on it
+            for i in rng.sample(live, min(len(live), 3)):
+                if i != 0:
+                    p.modules[i].flags = rng.choice([0, 0x100, 0x80, 0x2000, 0x180, 0x1E, rng.randrange(1 << 24) & ~1])
+            history.append("flags-assigned")
+            res.count("states_with_assigned_flags")
         if rng.random() < 0.5:
             # the version stamp of the file is the writer's business; links persist whichever stamp it carries
             p.sunvox_version = rng.choice([(1, 7, 0, 0), (1, 9, 2, 0), (1, 9, 5, 2), (1, 9, 6, 0), (1, 9, 6, 1), (2, 0, 0, 0), (2, 1, 2, 1)])
